@@ -560,6 +560,21 @@ ExecReturn(st, s) ==
 ExecOnError(st, s) ==
   [st EXCEPT !.h = [m |-> IF s.mode = "zero" THEN "none" ELSE s.mode, l |-> s.l], !.k = Adv(@)]
 
+\* procedures that are left without returning: what their STATIC variables hold stays
+RECURSIVE KeepStatics(_, _, _)
+KeepStatics(st, acts, j) ==
+  IF j > Len(acts) THEN st
+  ELSE LET a == acts[j]
+           proc == st.prog.subs[SubIndex(st.prog, a.sub)]
+       IN KeepStatics(IF proc.static
+                      THEN [st EXCEPT !.statics = IF proc.n \in DOMAIN @ THEN [@ EXCEPT ![proc.n] = a.vars] ELSE @ @@ (proc.n :> a.vars)]
+                      ELSE st, acts, j + 1)
+
+\* the part of a continuation that belongs to the module (below the first call barrier)
+RECURSIVE FirstCall(_, _)
+FirstCall(k, j) == IF j > Len(k) THEN Len(k) + 1 ELSE IF k[j].f = "call" THEN j ELSE FirstCall(k, j + 1)
+ModulePart(k) == SubSeq(k, 1, FirstCall(k, 1) - 1)
+
 \* RESUME: leave the handler; module-level variables stay as the handler left them
 ExecResume(st, s) ==
   IF ~st.ei.on THEN Raise(st, s.id, 20)
@@ -568,10 +583,15 @@ ExecResume(st, s) ==
         off == [on |-> FALSE]
     IN CASE s.mode = "bare" -> [st EXCEPT !.k = st.ei.kAt, !.act = back, !.ei = off, !.errv = 0]
          [] s.mode = "next" -> [st EXCEPT !.k = st.ei.kNext, !.act = back, !.ei = off, !.errv = 0]
+         \* the label is in the module: the procedures that were active when the error happened are left for good (their
+         \* pending GOSUBs with them); the module goes on with its variables as the handler left them
          [] s.mode = "label" ->
-              LET kk == GotoK(<<st.k[1]>>, s.l) IN
-              IF kk = <<>> \/ Len(st.ei.act) > 1 THEN Skip(st)
-              ELSE [st EXCEPT !.k = kk, !.act = back, !.ei = off, !.errv = 0]
+              \* like a GOTO from the place in the module where the error happened (the blocks around the label must be
+              \* active there: their loop counters and limits go on as they are)
+              LET kk == GotoK(ModulePart(st.ei.kAt), s.l) IN
+              IF kk = <<>> THEN Skip(st)
+              ELSE KeepStatics([st EXCEPT !.k = kk, !.act = <<st.act[1]>>, !.ei = off, !.errv = 0,
+                                           !.gs = SelectSeq(@, LAMBDA g : BarrierAt(g, Len(g)) = 0)], st.ei.act, 2)
 
 ExecCall(st, s) ==
   IF ~HasSub(st.prog, s.n) THEN Skip(st)
